@@ -73,6 +73,7 @@ func (e *Evaluator) LastDebugErr() error {
 
 func (e *Evaluator) Process(items map[string]interface{}) (ret bool, retErr error) {
 	e.lastDebugErr = nil
+	var visitor *JsonQueryVisitorImpl
 	// antlr lib has panics for exceptions so we have to put a recover here
 	// in the unlikely case there is an exception
 	defer func() {
@@ -80,13 +81,17 @@ func (e *Evaluator) Process(items map[string]interface{}) (ret bool, retErr erro
 		if info != nil {
 			retErr = recoveredError(info)
 			ret = false
+			// keep what the comparisons reached before the panic reported
+			if visitor != nil {
+				e.lastDebugErr = visitor.debugErr
+			}
 		}
 	}()
 
 	if e.syntaxErr != nil {
 		return false, e.syntaxErr
 	}
-	visitor := NewJsonQueryVisitorImpl(items)
+	visitor = NewJsonQueryVisitorImpl(items)
 	result := visitor.Visit(e.tree)
 	e.lastDebugErr = visitor.debugErr
 	if e.testHookPanic != nil {
